@@ -36,7 +36,7 @@ META = {
     'evaluation_counters': ['judged_' + p for p in PREDICATES],
     'required_counters': (['judged_' + p for p in PREDICATES]
                           + [f'{p}_true' for p in PREDICATES] + [f'{p}_false' for p in PREDICATES]
-                          + ['antisymmetry_checked']),
+                          + ['antisymmetry_checked', 'judged_orphaned_concepts']),
     'shards': {'quick': 16, 'thorough': 16},
     'exhaustive': {'quick': 'all tables <= 3x3 x all ordered pairs x all predicates',
                    'thorough': 'all tables <= 3x3, 3x4, 4x3, 4x4 x all ordered pairs x all predicates'},
@@ -135,6 +135,29 @@ OPS = {'__le__': lambda a, b: a <= b, '__ge__': lambda a, b: a >= b,
        '__lt__': lambda a, b: a < b, '__gt__': lambda a, b: a > b}
 
 
+ORPHANS = []
+
+
+def _orphans(concepts, case, spec):
+    """Members of a lattice whose context and lattice are referenced by nobody else afterwards,
+    with their shadow masks (the oracle must not need the lattice later)."""
+    if len(case['objects']) * len(case['properties']) > 100:
+        return None
+    ctx = common.build_or_skip(concepts, case)
+    if ctx is None:
+        return None
+    sh = attach.shadow_of(ctx)
+    lat = call(lambda: ctx.lattice)
+    if lat is RAISED:
+        return None
+    cs = list(lat)
+    try:
+        ms = [(sh.omask(c.extent), sh.pmask(c.intent)) for c in cs]
+    except KeyError:
+        return None
+    return cs, ms, sh.ALLO
+
+
 def run_case(concepts, case, spec):
     rng = common.rng_for(case, spec)
     ctx = common.build_or_skip(concepts, case)
@@ -167,6 +190,29 @@ def run_case(concepts, case, spec):
         seeds = [members[rng.randrange(n)] for _ in range(rng.randint(2, 4))]
         call(list, lat.upset_union(seeds))
         call(list, lat.downset_union(seeds))
+    # concepts that outlive every other reference to their lattice and context
+    ORPHANS.append(_orphans(concepts, case, spec))
+    if len(ORPHANS) >= 8:
+        import gc
+        common.drop_views()
+        common._ties.clear()
+        gc.collect()
+        for held in ORPHANS:
+            if held is None:
+                continue
+            cs, ms, ALL = held
+            for _ in range(6):
+                i, j = rng.randrange(len(cs)), rng.randrange(len(cs))
+                (ex, ix), (ey, iy) = ms[i], ms[j]
+                for pname, fn in PREDICATES.items():
+                    want = bool(fn(ex, ey, ix, iy, ALL))
+                    got = call(getattr(cs[i], pname), cs[j])
+                    COL.count('judged_orphaned_concepts')
+                    if got is RAISED:
+                        COL.violation(pname, f'{pname}:raised-on-concepts-that-outlived-their-lattice', want, 'exception')
+                    elif bool(got) != want:
+                        COL.violation(pname, f'{pname}:truthiness-differs-on-concepts-that-outlived-their-lattice', want, bool(got))
+        ORPHANS.clear()
     old = POOL.older(rng)
     if old is not None:
         a, b = rng.choice(old), rng.choice(old)
